@@ -1082,4 +1082,55 @@ theorem validateInputs_verified {L O tx tt fork f i a}
         · simp at h
 
 
+def inputKey (i : Input) : Id × Nat := (i.hash, i.index)
+
+/-- the duplicate-input filter: the keys of a completed loop's filter are the old keys followed by
+    the inputs' keys, and stay duplicate-free -/
+theorem loop_filter_nodup {L tx tt fork} : ∀ (ins : List Input) (k : Nat) (a a' : InAcc),
+    inputsLoop L tx tt fork k ins a = .ok (.full a') →
+    a'.filter.map (·.1) = a.filter.map (·.1) ++ ins.map inputKey ∧
+    ((a.filter.map (·.1)).Nodup → (a'.filter.map (·.1)).Nodup) := by
+  intro ins
+  induction ins with
+  | nil => intro k a a' h; simp [inputsLoop] at h; subst h; simp
+  | cons inp rest ih =>
+    intro k a a' h
+    unfold inputsLoop at h
+    split at h
+    · simp at h
+    · split at h
+      · simp at h
+      · split at h
+        · simp at h
+        · split at h
+          · simp at h
+          · rename_i hfind
+            split at h
+            · simp at h
+            · rename_i u hu
+              split at h
+              · simp at h
+              · split at h
+                · simp at h
+                · simp only [bind_ok] at h
+                  obtain ⟨ks, _, h⟩ := h
+                  split at h
+                  · simp at h
+                  · obtain ⟨h1, h2⟩ := ih _ _ _ h
+                    refine ⟨by simp [h1, inputKey], fun hnd => h2 ?_⟩
+                    simp only [List.map_append, List.map_cons, List.map_nil]
+                    have hnot : (inp.hash, inp.index) ∉ a.filter.map (·.1) := by
+                      intro hmem
+                      obtain ⟨e, he, hek⟩ := List.mem_map.1 hmem
+                      apply hfind
+                      rw [List.find?_isSome]
+                      exact ⟨e, he, by simp [hek]⟩
+                    rw [List.nodup_append]
+                    refine ⟨hnd, by simp, ?_⟩
+                    intro x hx y hy
+                    simp at hy
+                    subst hy
+                    intro hxy; subst hxy; exact hnot hx
+
+
 end Mixin.Validate
